@@ -552,6 +552,28 @@ def exec_chain(n):
     return {'a': 'ExecChain', 'args': {'n': n}, 'out': 'value', 'ret': ret}
 
 
+def exec_wide(groups):
+    """The estimate on a root that owns relations over leaf children only (counts far beyond 2^31).
+    The result is logged as its decimal digits; the specification computes the exact count on digit sequences."""
+    from flamapy.metamodels.fm_metamodel.models import FeatureModel
+    root = Feature('w')
+    for gi, g in enumerate(groups):
+        kids = [Feature('w%d_%d' % (gi, k)) for k in range(g['n'])]
+        root.add_relation(Relation(root, kids, g['lo'], g['hi']))
+    model = FeatureModel(root)
+    ret = {'out': 'value', 'digits': ''}
+    try:
+        with time_limit(60):
+            res = new_op('estimate').execute(model).get_result()
+        if isinstance(res, int) and not isinstance(res, bool) and res >= 0:
+            ret['digits'] = str(res)
+        else:
+            ret['digits'] = '?' + tok(res)[:60]
+    except (Exception, CallTimeout, RecursionError) as exc:
+        ret['out'] = 'error:' + errname(exc)
+    return {'a': 'ExecWide', 'args': {'groups': groups}, 'out': 'value', 'ret': ret}
+
+
 def shape_model(nroot, extra):
     """Root with `nroot` optional children; the first len(extra) of them get extra[i] children each."""
     from flamapy.metamodels.fm_metamodel.models import FeatureModel
